@@ -120,6 +120,11 @@ def monStep (m : MonSt) (toks : List String) : MonSt × String :=
       match m.l.remove txs with
       | none => ({ m with dead := true }, "panic")
       | some l' => ({ m with l := l' }, "ok " ++ listenerStr l')
+  | "orphan" :: d :: _ =>
+    -- a block the tracker refuses (it does not build on the tip): the monitor is not touched, except that
+    -- the chunks of a streamed block set `saw_block` (`on_block_start`)
+    let l' : Listener := if d == "s" then { m.l with st := { m.l.st with sawBlock := true } } else m.l
+    ({ m with l := l' }, "rej " ++ listenerStr l')
   | ["forget"] =>
     let l' := Prune.setForget m.l
     ({ m with l := l' }, "ok " ++ listenerStr l')
